@@ -410,13 +410,17 @@ func (x *runner) finish() {
 // thorough: additionally exhaustive sequences to a depth bound and long growth chains.
 func Run(o *hx.Out, g *hx.Rng, tier string) {
 	o.Res.Rule = "a case is one op sequence from one start layout (capacity, head offset, fill); distinct = distinct hash of the full op string; non-trivial = at least one element stored"
-	nseq, seqlen := 400, 120
+	nseq, seqlen := 320, 120
 	if tier == "thorough" {
 		nseq, seqlen = 4000, 300
 	}
 	for s := 0; s < nseq; s++ {
 		x := &runner{o: o}
-		c := startCaps[g.Intn(len(startCaps))]
+		// 65 % small capacities (cheap, most of the index arithmetic), 35 % around RINGBUFFER_EXP
+		c := startCaps[g.Intn(4)]
+		if g.Chance(35) {
+			c = startCaps[4+g.Intn(4)]
+		}
 		o.Case("")
 		capn := max(c, kcp.RINGBUFFER_MIN)
 		h := g.Intn(capn)
@@ -436,7 +440,7 @@ func Run(o *hx.Out, g *hx.Rng, tier string) {
 		} else {
 			o.Count("start:contiguous")
 		}
-		x.start(c, h, fill, g.Chance(50))
+		x.start(c, h, fill, g.Chance(50) || (capn > 64 && g.Chance(70)))
 		growBias := g.Chance(30)
 		for i := 0; i < seqlen; i++ {
 			x.do(x.randomOp(g, growBias))
